@@ -12,7 +12,7 @@ BOUND = {
 KNOWN = ["Europe/Berlin", "America/New_York", "Asia/Tokyo", "Europe/London"]
 # other spellings the provider resolves to one of the zones above (used through the TZID parameter of a floating value)
 ALIASES = ["/Europe/Berlin", "/America/New_York", "Eastern Standard Time", "W. Europe Standard Time", "Europe/Berlin/", "UTC", "Etc/UTC", "GMT", "Etc/GMT+5"]
-UNKNOWN = ["Custom/Nowhere", "X-Local"]
+UNKNOWN = ["Custom/Nowhere", "X-Local", "(UTC-03:00) Bras\u00edlia", "Mitteleurop\u00e4ische Zeit", "\u6771\u4eac"]      # (incl. non-ASCII ids, as Outlook writes them)
 
 
 def zoned(tzid, rnd):
